@@ -25,6 +25,7 @@ import (
 )
 
 type Clause struct {
+	Internal bool // proved at function exit, not exported to callers
 	Label string
 	Text  string
 	Line  int
@@ -62,7 +63,7 @@ type Contract struct {
 	Havoc     bool     // assumed: havoc all state (unknown side effects)
 }
 
-var kwRe = regexp.MustCompile(`^(axiom|func|props|requires|ensures|modifies|loop|decreases|assumed|pure|nosafety|inline|maypanic|note|let|allocates|bounded-standin|havoc)\b`)
+var kwRe = regexp.MustCompile(`^(axiom|func|props|requires|ensures|lemma|modifies|loop|decreases|assumed|pure|nosafety|inline|maypanic|note|let|allocates|bounded-standin|havoc)\b`)
 var funcRe = regexp.MustCompile(`^func\s+(\([^)]*\)\.)?([A-Za-z0-9_./$#\-]+)\s*\(([^)]*)\)\s*(\(([^)]*)\))?\s*$`)
 
 // parseContractFile reads contracts from a file. pkgPath qualifies
@@ -164,6 +165,11 @@ func parseContractFile(path, pkgPath string) ([]*Contract, []Clause, error) {
 			lastClause = &cur.Requires[len(cur.Requires)-1]
 		case "ensures":
 			cur.Ensures = append(cur.Ensures, mkClause(rest))
+			lastClause = &cur.Ensures[len(cur.Ensures)-1]
+		case "lemma":
+			c := mkClause(rest)
+			c.Internal = true
+			cur.Ensures = append(cur.Ensures, c)
 			lastClause = &cur.Ensures[len(cur.Ensures)-1]
 		case "modifies":
 			cur.HasMod = true
